@@ -75,10 +75,25 @@ def run(ctx, rep):
     else:
         b = bp[0]
         good = False
-        for cb in F.closures_of(b):
+
+        def all_cl2(b0):
+            out = []
+            for c in F.closures_of(b0):
+                out.append(c)
+                out += all_cl2(c)
+            return out
+        for cb in all_cl2(b):
             f = ok.closure_bool_facts(cb) if cb.locals[0]["ty"] == "bool" else frozenset()
             if any(x[0] == "cmp" and x[1] == "Eq" and "len" in str(x) for x in f):
                 good = True
+            # (p.len() == partition_count).then_some(p): the comparison feeds then_some / a branch inside a closure
+            for bl in cb.blocks:
+                for st_ in bl["s"]:
+                    rv = st_["rv"]
+                    if rv["r"] == "bin" and rv["op"] == "Eq":
+                        sl = backward_slice(cb, rv["a"])["calls"] + backward_slice(cb, rv["b"])["calls"]
+                        if any(re.search(r"::len$", callee_name(c)) for c in sl):
+                            good = True
         rep.check("C01.part", "encoder keeps a split only if its chunk count equals the partition count it was made for", good, loc_of(b), "",
                   "best_partitions accepts a split whose chunk count differs from 2^order: the decoder rejects the stream")
         wp = F.one("encode::write_residuals::write_partitions")
@@ -445,11 +460,18 @@ def run(ctx, rep):
     ib = anchor(F, rep, "C01.zero", "encode::CorrelatedChannel::independent")
     if ib is not None:
         al = [t for _, t in ib.calls() if re.search(r"Iterator::all$|Iterator>::all$", callee_name(t))]
-        good = len(al) == 1 and bool(al[0]["cls"])
-        if good:
+        an_ = [t for _, t in ib.calls() if re.search(r"Iterator::any$|Iterator>::any$", callee_name(t))]
+        good = False
+        if len(al) == 1 and al[0]["cls"] and not an_:
             cb = F.body(al[0]["cls"][0])
             f = ok.closure_bool_facts(cb) if cb else frozenset()
             good = any(x[0] == "cmp" and x[1] == "Eq" and "const:0" in (str(x[2]), str(x[3])) for x in f)
+        elif len(an_) == 1 and an_[0]["cls"] and not al:
+            # !any(|s| s != 0)
+            cb = F.body(an_[0]["cls"][0])
+            f = ok.closure_bool_facts(cb) if cb else frozenset()
+            neg = [st_ for bl in ib.blocks for st_ in bl["s"] if st_["rv"]["r"] == "un" and st_["rv"]["op"] == "Not"]
+            good = any(x[0] == "cmp" and x[1] == "Ne" and "const:0" in (str(x[2]), str(x[3])) for x in f) and len(neg) == 1
         nz += 1
         rep.check("C01.zero", "independent channel: all-zero flag = every sample == 0", good, loc_of(ib), "",
                   "CorrelatedChannel::independent no longer computes the all-zero flag with all(|s| s == 0)")
